@@ -280,3 +280,66 @@ def prog_args_program(with_driver=True):
         prog = load_program(units)
         _PROG_CACHE[key] = (prog, units)
     return _PROG_CACHE[key]
+
+
+# ---------------------------------------------------------------------------
+# loops that are driven by a read from an input stream
+
+STREAM_READS = ('getline', 'operator>>', 'read', 'get', 'readsome', 'ignore')
+
+
+def stream_read_in(cond):
+    """the input operation (std::getline / istream::operator>> / read / get) inside a loop condition, or None"""
+    for x in walk(cond):
+        if x.get('k') in CALL_KINDS:
+            q = x.get('callee') or ''
+            short = q.split('::')[-1]
+            if q == 'std::getline' or (short in STREAM_READS and ('basic_istream' in q or 'basic_ifstream' in q)):
+                return x
+            if short == 'operator>>' and 'basic_istream' in (x.get('t') or ''):
+                return x
+    return None
+
+
+def stream_loop_condition(cond):
+    """classifies a loop condition built on an input operation `r`:
+         'success'  the condition is exactly "the read succeeded" (stream converted to bool, !r.fail()): the loop ends at
+                    the first failed read - end of file OR error - and its body runs for every record the read delivered
+         'good'     r.good(): ends at the first failure, but an unterminated last record (characters extracted, eofbit
+                    set) is not processed
+         'eof'      !r.eof(): never ends when the stream fails without reaching the end (badbit: unreadable file,
+                    directory), and an unterminated last record is not processed
+         'other'    anything else (a disjunction that lets the loop continue after a failed read, ...)"""
+    c = strip_all_casts(cond)
+    neg = False
+    while True:
+        while c.get('k') in ('ParenExpr', 'ExprWithCleanups', 'MaterializeTemporaryExpr', 'CXXBindTemporaryExpr') \
+                and children(c):
+            c = strip_all_casts(children(c)[0])
+        if c.get('k') == 'UnaryOperator' and c.get('op') == '!':
+            neg = not neg
+            c = strip_all_casts(children(c)[0])
+            continue
+        if c.get('k') == 'CXXOperatorCallExpr' and c.get('op') == '!' and len(children(c)) >= 2:
+            neg = not neg
+            c = strip_all_casts(children(c)[1])
+            continue
+        break
+    k = c.get('k')
+    if k in CALL_KINDS:
+        q = c.get('callee') or ''
+        short = q.split('::')[-1]
+        inner = object_of(c)
+        reads_inside = inner is not None and stream_read_in(inner) is not None
+        if short.startswith('operator bool') or short in ('operator void *', 'operator void*'):
+            return 'success' if (reads_inside and not neg) else 'other'
+        if short == 'fail' and reads_inside:
+            return 'success' if neg else 'other'
+        if short == 'good' and reads_inside:
+            return 'good' if not neg else 'other'
+        if short == 'eof' and reads_inside:
+            return 'eof' if neg else 'other'
+        if stream_read_in(c) is c:
+            # the stream object itself in a boolean context
+            return 'success' if not neg else 'other'
+    return 'other'
